@@ -52,8 +52,14 @@ def main():
             r = subprocess.run([os.path.join(V, "check"), p, "--tier", tier], cwd=V, env=env, capture_output=True, text=True)
             lines = [l for l in r.stdout.splitlines() if l.startswith(("VIOLATION", "OK", "KNOWN-FINDING", "INFRASTRUCTURE"))]
             print("%s %s: rc=%d %s" % (os.path.basename(sd), p, r.returncode, " | ".join(lines)[:600]))
-            if not any(l.startswith("VIOLATION") for l in lines):
+            caught = any(l.startswith("VIOLATION") for l in lines)
+            if not caught:
                 ok = False
+            meta.setdefault("check_runs", []).append({
+                "check": p, "tier": tier, "rc": r.returncode, "caught": caught,
+                "with_replay": any(l.startswith("VIOLATION") and "no-failing-input-found" not in l for l in lines),
+                "lines": [l[:300] for l in lines if not l.startswith("KNOWN-FINDING")]})
+            json.dump(meta, open(os.path.join(sd, "meta.json"), "w"), indent=1)
     finally:
         if not keep:
             subprocess.run(["git", "-C", "/repo", "worktree", "remove", "--force", wt], capture_output=True)
